@@ -1,5 +1,7 @@
 import RallyModel.Race
+import RallyModel.RaceOfAlloc
 import Drivers.Util
+import Drivers.Alloc
 open Lean DUtil
 
 namespace Drivers.Race
@@ -164,6 +166,26 @@ def handle (op : String) (a : Json) : Except String Json := do
       ("d2r", arr (s.d2r.map fun m => Json.str (msgDR m))),
       ("entered", toJson s.entered.length),
       ("quiescent", toJson quiescent)]) tags.eraseDups
+  | "cfgof" =>
+    -- the race configuration derived from the allocator model (RaceOfAlloc.cfgOf), in the canonical form the harness
+    -- also brings the real ClientAllocations into
+    let sched ← (← getArr a "schedule").mapM Drivers.Alloc.parseElement
+    let hosts ← (← getArr a "hosts").mapM fun h => do
+      return (⟨← getNat h "name", ← getNat h "cores"⟩ : _root_.Alloc.Host)
+    let fin ← natList a "finite"          -- ids of the tasks that end by themselves
+    let m := _root_.Alloc.maxClients sched
+    let workers := RaceOfAlloc.workersOf hosts m
+    let cfg := RaceOfAlloc.cfgOf (fun tid => fin.contains tid) sched workers
+    let taskJ (t : TaskA) : Json := Json.mkObj [("client", toJson t.client), ("tid", toJson t.tid), ("finite", toJson t.finite),
+      ("cp", toJson t.cp), ("acp", toJson t.acp)]
+    return ok (Json.mkObj [
+      ("W", toJson cfg.W), ("S", toJson cfg.S),
+      ("elems", arr ((List.range cfg.W).map fun w => arr ((List.range cfg.S).map fun e =>
+        arr ((cfg.elems w e).map fun col => arr (col.map taskJ))))),
+      ("joins", arr ((List.range (cfg.S + 1)).map fun j =>
+        arr [arr ((cfg.joins j).completing.map toJson), arr ((cfg.joins j).anyC.map toJson)])),
+      ("workerOf", arr ((List.range m).map fun c => toJson (cfg.workerOf c))),
+      ("clientsOf", arr ((List.range cfg.W).map fun w => arr ((cfg.clientsOf w).map toJson)))]) []
   | _ => throw s!"unknown op {op}"
 
 end Drivers.Race
